@@ -317,7 +317,20 @@ def check_no_expand(doc, ch, acc):
         d2 = W.loads(out, expand=False)
     except Exception as e:
         return [Discrepancy(f"no_expand_print:{type(e).__name__}", f"writing back INCLUDE directives failed: {e!s:.100}", case)]
-    inc_model = [it[2] for root in doc for _, o in model.walk(root) for it in o["items"] if it[0] == "rep" and it[1] == "include"]
+    def _incs(x, out):
+        # the directives that survive in the dictionary (a singleton block given twice keeps only its last occurrence)
+        if isinstance(x, dict):
+            for k, v in x.items():
+                if k == "include" and isinstance(v, list):
+                    out.extend(v)
+                else:
+                    _incs(v, out)
+        elif isinstance(x, list):
+            for v in x:
+                _incs(v, out)
+        return out
+
+    inc_model = _incs(exp, [])
     inc_out = [l.split(None, 1)[1].strip().strip('"') for l in out.split("\n") if l.strip().upper().startswith("INCLUDE ")]
     acc.cls("no_expand_includes", len(inc_model))
     if sorted(inc_model) != sorted(inc_out):
